@@ -219,6 +219,7 @@ Lemma add_if_valid_cases l p t p' :
 Proof.
   unfold add_transaction_if_validates.
   destruct (producer_only t); [intros H; inversion H; auto|].
+  destruct (late_issuance l t); [intros H; inversion H; auto|].
   destruct (foreign_stake t); [intros H; inversion H; auto|].
   destruct (tx_validate l t) eqn:V.
   - intros H. apply add_transaction_cases in H. tauto.
@@ -724,13 +725,13 @@ Qed.
 Theorem fresh_spend_pooled : forall l p t,
   I3 p ->
   tx_validate l t = true -> t_type t <> TGoldenTicket -> producer_only t = false ->
-  foreign_stake t = false ->
+  late_issuance l t = false -> foreign_stake t = false ->
   has_tx (t_id t) (txs p) = false ->
   (forall k u, In k (vkeys t) -> In u (txs p) -> ~ In k (in_keys u)) ->
   exists p', add_transaction_if_validates l p t = Ok p' /\ In t (txs p').
 Proof.
-  intros l p t H3 V T PO FS Hn Hfree.
-  unfold add_transaction_if_validates. rewrite PO, FS, V. unfold add_transaction.
+  intros l p t H3 V T PO LI FS Hn Hfree.
+  unfold add_transaction_if_validates. rewrite PO, LI, FS, V. unfold add_transaction.
   assert (conflicts p t = false) as C.
   { unfold conflicts. apply existsb_false. intros k Hk. apply mem_false. intros Hin.
     destruct (H3 k Hin) as [u [Hu Hku]]. eapply Hfree; eauto. }
@@ -743,7 +744,7 @@ Qed.
 Theorem unspent_always_spendable : forall g ops s t,
   run (init g) ops = Ok s ->
   tx_validate (ledger s) t = true -> t_type t <> TGoldenTicket -> producer_only t = false ->
-  foreign_stake t = false ->
+  late_issuance (ledger s) t = false -> foreign_stake t = false ->
   has_tx (t_id t) (txs (pl s)) = false ->
   (forall k u, In k (vkeys t) -> In u (txs (pl s)) -> ~ In k (in_keys u)) ->
   exists p', add_transaction_if_validates (ledger s) (pl s) t = Ok p' /\ In t (txs p').
@@ -931,6 +932,7 @@ Lemma add_if_valid_total l p t :
 Proof.
   intros T. unfold add_transaction_if_validates, add_transaction.
   destruct (producer_only t); [eauto|].
+  destruct (late_issuance l t); [eauto|].
   destruct (foreign_stake t); [eauto|].
   destruct (tx_validate l t); [|eauto].
   destruct (conflicts p t); [eauto|]. destruct (has_tx (t_id t) (txs p)); [eauto|].
@@ -978,6 +980,7 @@ Theorem panic_only_gt : forall l p t site,
 Proof.
   intros l p t site. unfold add_transaction_if_validates, add_transaction.
   destruct (producer_only t); [discriminate|].
+  destruct (late_issuance l t); [discriminate|].
   destruct (foreign_stake t); [discriminate|].
   destruct (tx_validate l t); [|discriminate].
   destruct (conflicts p t); [discriminate|]. destruct (has_tx (t_id t) (txs p)); [discriminate|].
@@ -1242,8 +1245,16 @@ Proof. intros g ops s H. apply (base_invariants g ops s H). Qed.
 Theorem foreign_stake_refused : forall c p t,
   t_type t = TBlockStake -> t_own t = false -> add_transaction_if_validates c p t = Ok p.
 Proof.
-  intros c p t T O. unfold add_transaction_if_validates, producer_only, foreign_stake.
+  intros c p t T O. unfold add_transaction_if_validates, producer_only, late_issuance, foreign_stake.
   rewrite T, O. reflexivity.
+Qed.
+
+(* 716c212: an issuance transaction is never pooled on a running chain *)
+Theorem late_issuance_refused : forall c p t,
+  t_type t = TIssuance -> c_latest c <> 0 -> add_transaction_if_validates c p t = Ok p.
+Proof.
+  intros c p t T L. unfold add_transaction_if_validates, producer_only, late_issuance.
+  rewrite T. apply N.eqb_neq in L. rewrite L. reflexivity.
 Qed.
 
 Lemma own_stake_example :
